@@ -77,6 +77,19 @@ class ParseSuite:
             return f"composition {case['id']}, access key {case['key']!r}, substituted method {case['subst']!r}: requested {out['url']!r}, should be {want!r}"
         return None
 
+    def oracle_C11(self, case, out):
+        """the speed the rhythm is built for is the number of minutes the user wrote"""
+        if case["fn"] != "parse_peal_speed" or "ok" not in out:
+            return None
+        s, v = case["s"], out["ok"]
+        m = re.fullmatch(r"\s*(\d+)\s*h\s*(\d*)\s*m?\s*", s)
+        if m and v != int(m.group(1)) * 60 + int(m.group(2) or 0):
+            return f"--peal-speed {s!r} gives a rhythm of {v} minutes per 5040 rows"
+        m = re.fullmatch(r"\s*(\d+)m?\s*", s)
+        if m and v != int(m.group(1)):
+            return f"--peal-speed {s!r} gives a rhythm of {v} minutes per 5040 rows"
+        return None
+
     def all_cases(self, rng, tier):
         deep = tier == "thorough"
         # ---- peal speed
@@ -89,6 +102,10 @@ class ParseSuite:
             form = rng.choice(["{h}h{m}", "{h}h{m:02d}", "{h}h{m}m", " {h} h {m} m ", "{t}", "{t}m", "{h}h", "h{m}", "{h}hh{m}",
                                "{h}h-{m}", "-{h}h{m}", "{h}_0h{m}", "{t}.5", "+{t}", "{h}h{m}h"])
             yield {"fn": "parse_peal_speed", "s": form.format(h=h, m=m, t=h * 60 + m)}
+        # (every documented 'XhYY' value up to 17h59: the minutes are h * 60 + m for each of them, not for most)
+        for h in range(0, 18):
+            for m in range(0, 60):
+                yield {"fn": "parse_peal_speed", "s": f"{h}h{m:02d}" + ("m" if (h + m) % 7 == 0 else "")}
         # ---- calls
         alpha = "14x-.:/ ze,&"
         for ln in range(0, 5 if deep else 4):
